@@ -166,6 +166,9 @@ type dgram struct {
 	// SCION, re-framed packets (gen_reframe.go): the NTP header the UDP length field delimits from the
 	// start of the L4 data was written by the harness acting as an on-path attacker without keys
 	forgedHdr bool
+	// built by the peer as the answer to an EARLIER exchange's request (held back and delivered to the
+	// address that request came from while the next request is outstanding)
+	answersOther bool
 }
 
 type peer struct {
@@ -292,6 +295,7 @@ type exchCfg struct {
 	nts      bool // client with NTS enabled (key exchange data preloaded through the ntske hook)
 	spao     bool // SCION: Auth.Enabled with a DRKey fetcher that has no daemon (no key becomes available)
 	spaoKey  bool // SCION: Auth.Enabled with a DRKey fetcher on a fake daemon connector: the host-host key is available
+	port     int    // port of the client's local address as configured (0: none)
 	zone     string // zone of the client's local address ("lo": hardware timestamping requested on loopback, so
 	// the kernel delivers neither transmit nor receive timestamps and the client falls back to clock readings)
 	nowAll   bool // setNow's values script ALL clock readings of the exchange in order (else the first only)
@@ -299,6 +303,9 @@ type exchCfg struct {
 
 // liveZone: zone of the local address the live clients are called with (set per exchange).
 var liveZone string
+
+// livePort: port of the local address the live clients are called with (0: none configured).
+var livePort int
 
 // script decides, after seeing the request, which datagrams go back in which order.
 type script func(ri *reqInfo) (out []dgram, theta int64, S int64, genuineIL bool)
@@ -400,7 +407,7 @@ func (l ipLive) configure(cfg exchCfg, f *recFilter) {
 func (l ipLive) getPrev() client.VerifC03Prev  { return client.VerifC03PrevIP(l.c) }
 func (l ipLive) setPrev(p client.VerifC03Prev) { client.VerifC03SetPrevIP(l.c, p) }
 func (l ipLive) measure(ctx context.Context) (time.Time, time.Duration, error) {
-	la := &net.UDPAddr{IP: net.IPv4(127, 0, 0, 1).To4(), Zone: liveZone}
+	la := &net.UDPAddr{IP: net.IPv4(127, 0, 0, 1).To4(), Zone: liveZone, Port: livePort}
 	ra := net.UDPAddrFromAddrPort(thePeer.addr)
 	return client.VerifC03MeasureIP(ctx, l.c, la, ra)
 }
@@ -480,8 +487,8 @@ func exchange(c *lib.Ctx, lc liveClient, cfg exchCfg, sc script) (res exchResult
 		}
 	}
 	clk.reset(ov...)
-	liveZone = cfg.zone
-	defer func() { liveZone = "" }()
+	liveZone, livePort = cfg.zone, cfg.port
+	defer func() { liveZone, livePort = "", 0 }()
 	ctx := context.Background()
 	cancel := func() {}
 	if cfg.deadline != 0 {
@@ -989,7 +996,7 @@ func recordIP(c *lib.Ctx, tag string, cfg exchCfg, res exchResult) int {
 	// judged by the property's own predicate on the bytes the peer sent
 	if accepted {
 		if cands := explain(p, cfg, res); len(cands) > 0 {
-			echoOK, authOK, addrOK, hdrOK := false, false, false, false
+			echoOK, authOK, addrOK, hdrOK, ownOK := false, false, false, false, false
 			var descr []string
 			for _, u := range cands {
 				d := res.sent[u.idx]
@@ -1006,6 +1013,9 @@ func recordIP(c *lib.Ctx, tag string, cfg exchCfg, res exchResult) int {
 				if !(d.forgedHdr && (cfg.nts || cfg.spaoKey)) {
 					hdrOK = true
 				}
+				if !d.answersOther {
+					ownOK = true
+				}
 				descr = append(descr, fmt.Sprintf("datagram %d read as interleaved=%v: origin=%s auth-invalid=%v from-queried-host-to-client=%v", u.idx, u.il, f64(be64(d.b[24:])), d.authInvalid, d.wire == nil || d.addrOK))
 			}
 			detail := map[string]any{"used": descr, "request_interleaved": res.ri.interleavedRq, "request_tx": f64(res.ri.tx),
@@ -1018,6 +1028,11 @@ func recordIP(c *lib.Ctx, tag string, cfg exchCfg, res exchResult) int {
 			if !addrOK {
 				c.Fail("C05:scion:accepted-response-from-other-host",
 					"the SCION client took its measurement from a datagram whose source is not the queried ISD-AS and host (as an IP address, an IPv4 address and its IPv4-mapped form being the same) or which is not addressed to the client",
+					[]string{opReq, op}, detail)
+			}
+			if !ownOK {
+				c.Fail("C03:response-of-another-exchange-evaluated",
+					"the client took its measurement from a datagram the server sent in answer to an EARLIER exchange's request, to the address that request came from: it reached the socket of this exchange",
 					[]string{opReq, op}, detail)
 			}
 			if !hdrOK {
